@@ -150,7 +150,7 @@ func (c01) ID() string { return "C01" }
 
 func (c01) Gen(r *simrt.Rand, idx int, tier string) *Case {
 	g := DefaultGen()
-	g.EquityAccrual = false
+	g.EquityAccrual = true
 	g.InexactAccrual = true
 	g.PAccrual = 0.1
 	valued := idx%2 == 1
